@@ -56,8 +56,9 @@ MAJOR = {0: {"uint"}, 1: {"nint"}, 2: {"bytes"}, 3: {"text"}, 4: {"array"}, 5: {
 def major_rule(ctx):
     rid = "C02.major"
     ctx.rule(rid, "CBORValidator::visit_type2 on Type2::DataMajorType{mt, constraint}: for mt in 0..7 and every kind of document "
-                  "value the verdict equals RFC 8949 section 3.1 (0 uint, 1 nint, 2 bstr, 3 tstr, 4 array, 5 map, 6 tag, 7 "
-                  "simple/float); `#0.n` accepts exactly n and `#1.n` exactly -1-n (abstract evaluation of the source)", floor=88)
+                  "value the verdict equals RFC 8949 section 3.1 (0 uint, 1 nint, 2 bstr, 3 tstr, 4 array, 5 map, 7 "
+                  "simple/float; #6 is Type2::TaggedData, see C02.tagged); `#0.n` accepts exactly n and `#1.n` exactly -1-n "
+                  "(abstract evaluation of the source)", floor=80)
     f = ctx.facts
     fi = vt.visitor_fn(f, "cbor", "visit_type2")
 
@@ -69,7 +70,7 @@ def major_rule(ctx):
                 return run.it.eval(node["a"][0]) == recv[1]
         return NotImplemented
     cases = []
-    for mt in range(8):
+    for mt in (0, 1, 2, 3, 4, 5, 7):      # the parser maps #6... to Type2::TaggedData (decided by C02.tagged)
         for dk in DOCS:
             cases.append((mt, None, dk, DOCS[dk], dk in MAJOR[mt]))
     cases += [(0, 5, "uint=5", ("enum", "Value::Integer", [5]), True), (0, 5, "uint=6", ("enum", "Value::Integer", [6]), False),
@@ -92,6 +93,65 @@ def major_rule(ctx):
                           % (verdict, dk, key.split("|")[0], "accept" if exp else "reject"))
 
 
+def tagged_rule(ctx):
+    rid = "C02.tagged"
+    ctx.rule(rid, "CBORValidator::visit_type2 on Type2::TaggedData{tag, t} (`#6`, `#6(t)`, `#6.n(t)`): a document that is not a tagged item "
+                  "is rejected; a tagged item is accepted exactly when the tag number equals n (any number when n is omitted) and its "
+                  "content is accepted by t — errors of the content validation are propagated (abstract evaluation, content visit scripted)",
+             floor=30)
+    f = ctx.facts
+    fi = vt.visitor_fn(f, "cbor", "visit_type2")
+    docs = dict(DOCS)
+    del docs["array"]          # an array document is handed to the array matcher (validate_array_items), decided by C02.seq
+    docs.pop("tag")
+    docs.update({"tag5": ("enum", "Value::Tag", [5, ("enum", "Value::Integer", [1])]), "tag0": ("enum", "Value::Tag", [0, ("enum", "Value::Integer", [1])]),
+                 "tag6": ("enum", "Value::Tag", [6, ("enum", "Value::Integer", [1])])})
+
+    def tagc(run, node, recv):
+        if isinstance(recv, tuple) and recv[0] == "tagc":
+            return ("Some", recv[1]) if recv[1] is not None else ("None",)
+        return NotImplemented
+    for con in (None, 5):
+        for content_ok in (True, False):
+            for dk, dv in docs.items():
+                key = "#6%s(t)|content %s|%s" % ("" if con is None else ".%d" % con, "ok" if content_ok else "fails", dk)
+                obj = vt.self_obj("cbor", dv)
+                obj[2]["state"][2].update({"is_multi_type_choice": False, "is_multi_group_choice": False, "data_location": ("str", ""),
+                                           "type_group_name_entry": ("None",), "enabled_features": ("None",)})
+                sub = []
+
+                def new(run, node, args, sub=sub):
+                    o = vt.self_obj("cbor", args[1] if len(args) > 1 else absint.OPAQUE)
+                    o[2]["state"][2].update({"data_location": ("str", "")})
+                    sub.append(o)
+                    return o
+
+                def visit_type(run, node, recv, sub=sub, content_ok=content_ok):
+                    if sub and recv is sub[-1]:
+                        if not content_ok:
+                            recv[2]["errors"].append(("str", "content error"))
+                        return ("Ok", ("tuple", []))
+                    return NotImplemented
+                t2 = ("enum", "Type2::TaggedData", {"tag": ("Some", ("tagc", con)) if con is not None else ("None",), "t": ("enum", "Type", {"type_choices": absint.MutList()})})
+                r = vt.Run(f, "cbor", "default", {}, {"self": obj, "t2": t2},
+                           scripts={"as_literal": tagc, "CBORValidator::new": new, "visit_type": visit_type, "push_str": lambda run, node, recv: ("tuple", [])})
+                try:
+                    r.run(fi.node)
+                except absint.Unknown as e:
+                    ctx.incomplete_msg(rid, "%s: %s" % (key, e))
+                    continue
+                nerr = r.errors + len(obj[2]["errors"])
+                is_tag = dk.startswith("tag")
+                exp = is_tag and (con is None or dk == "tag%d" % con) and content_ok
+                verdict = nerr == 0
+                ctx.site(rid, key, CBORF, fi.line, {"verdict": "accept" if verdict else "reject", "content_visits": len(sub)})
+                if verdict != exp:
+                    ctx.violation(rid, "#6%s|%s|%s" % ("" if con is None else ".n", "content " + ("ok" if content_ok else "fails"), "tag" if is_tag else dk), CBORF, fi.line,
+                                  "CBOR validator %ss a %s document for `#6%s(t)` with content %s; RFC 8610 section 3.6 says %s"
+                                  % ("accept" if verdict else "reject", dk, "" if con is None else ".%d" % con, "accepted by t" if content_ok else "rejected by t",
+                                     "accept" if exp else "reject"))
+
+
 def run(ctx):
     ctx.guarded("C02.cmp", lambda c: cv.cmp_rule(c, "C02", "cbor"))
     ctx.guarded("C02.range", lambda c: cv.range_rule(c, "C02", "cbor"))
@@ -103,3 +163,7 @@ def run(ctx):
     ctx.guarded("C02.ledger", lambda c: c10.r_ledger(c, rid="C02.ledger"))
     ctx.guarded("C02.width", width_rule)
     ctx.guarded("C02.major", major_rule)
+    ctx.guarded("C02.tagged", tagged_rule)
+    import prelude_scalar as ps
+    ctx.guarded("C02.prelude", lambda c: ps.rule(c, "C02", "cbor"))
+    ctx.guarded("C02.tagtable", ps.tagtable_rule)
